@@ -147,7 +147,89 @@ func (x *Exec) rangeInv(fr *Frame, b *ssa.BasicBlock) *Term {
 		}
 		return inv
 	}
-	return True()
+	return x.countInv(fr, b)
+}
+
+// countInv: the built-in invariant of a source-level counting loop `for i := c; i < B; i++` (c a constant, i
+// incremented by exactly one on every back edge, loop test `i < B` in the header): c <= i, and i <= B when c is 0 and
+// B is len(v) / cap(v) of a slice or string defined before the loop. It is the counterpart of rangeInv, so that a
+// range loop rewritten as an index loop keeps the facts the range form has for free. Like rangeInv it is RECORDED as
+// an obligation at loop entry and on every back edge, never just assumed.
+func (x *Exec) countInv(fr *Frame, b *ssa.BasicBlock) *Term {
+	inv := True()
+	for k := 0; k < skipPhis(b); k++ {
+		phi := b.Instrs[k].(*ssa.Phi)
+		if phi.Comment == "rangeindex" {
+			continue
+		}
+		var init *ssa.Const
+		step := false
+		for _, ed := range phi.Edges {
+			if c, isC := ed.(*ssa.Const); isC && c.Value != nil {
+				init = c
+				continue
+			}
+			if bo, isB := ed.(*ssa.BinOp); isB && bo.Op == token.ADD && bo.X == ssa.Value(phi) {
+				if c1, isC := bo.Y.(*ssa.Const); isC && c1.Value != nil && c1.Int64() == 1 {
+					step = true
+					continue
+				}
+			}
+			init, step = nil, false
+			break
+		}
+		if init == nil || !step {
+			continue
+		}
+		bt, isBasic := phi.Type().Underlying().(*types.Basic)
+		if !isBasic || bt.Info()&types.IsInteger == 0 || bt.Info()&types.IsUnsigned != 0 {
+			continue
+		}
+		v, ok := fr.get(phi)
+		if !ok {
+			continue
+		}
+		s, isS := v.(Scalar)
+		if !isS {
+			continue
+		}
+		// the header must test `phi < B`
+		var bound ssa.Value
+		for _, ins := range b.Instrs {
+			if bo, isB := ins.(*ssa.BinOp); isB && bo.Op == token.LSS && bo.X == ssa.Value(phi) {
+				bound = bo.Y
+			}
+		}
+		if bound == nil {
+			continue
+		}
+		inv = And(inv, cmp("bvsle", Const(s.T.S.W, uint64(init.Int64())), s.T))
+		if call, isCall := bound.(*ssa.Call); isCall && init.Int64() == 0 {
+			if bi, isBi := call.Call.Value.(*ssa.Builtin); isBi && (bi.Name() == "len" || bi.Name() == "cap") && len(call.Call.Args) == 1 {
+				arg := call.Call.Args[0]
+				if ins, isIns := arg.(ssa.Instruction); !isIns || ins.Block() != b {
+					if av, has := fr.get(arg); has {
+						var l *Term
+						switch a := av.(type) {
+						case SliceV:
+							l = a.Len
+							if bi.Name() == "cap" {
+								l = a.Cap
+							}
+						case StrV:
+							if bi.Name() == "len" {
+								l = x.strLen(a)
+							}
+						}
+						if l != nil && l.S.W == s.T.S.W {
+							inv = And(inv, cmp("bvsle", s.T, l))
+						}
+					}
+				}
+			}
+		}
+	}
+	return inv
 }
 
 func (v *verifyCtx) enterLoop(x *Exec, st *State, fr *Frame, b *ssa.BasicBlock, lc *LoopC) {
@@ -171,7 +253,23 @@ func (v *verifyCtx) enterLoop(x *Exec, st *State, fr *Frame, b *ssa.BasicBlock, 
 	// havoc loop-carried values and declared locations
 	var mods []Ptr
 	for _, m := range lc.Modifies {
-		for _, p := range e.evalLocs(m) {
+		// a name that does not denote a location at the loop head (e.g. a variable that a refactoring moved into the
+		// loop body) declares nothing: every store inside the loop is checked against the declared locations
+		// (checkLoopMods), so skipping it cannot hide a write
+		var locs []Ptr
+		func() {
+			defer func() {
+				if r := recover(); r != nil {
+					if _, ok := r.(engineErr); ok {
+						locs = nil
+						return
+					}
+					panic(r)
+				}
+			}()
+			locs = e.evalLocs(m)
+		}()
+		for _, p := range locs {
 			if p.Obj != nil {
 				mods = append(mods, p)
 			}
